@@ -1,4 +1,5 @@
 """C16 — generated C is valid under every C-generation option.
+Two-module programs (library + client, both split, one directory) for module-name pairs with and without a shared prefix.
 Units x the full option product {-Cold, -Cstandard} x idlen {0,30,31,40,64} x smax {0,1,5,50} x {lines, no-lines}:
 every emitted file must compile, the link against the rebuilt runtime must succeed, the executable must print what the
 default build prints; in the emitted text no file-scope C identifier is defined twice and distinct exported entities
@@ -184,6 +185,49 @@ def main(tier):
                   files={'u.as': text},
                   cmds=[' '.join(tc.b.base() + tc.flags + ['-Q1', std, '-Cidlen=%d' % idlen, '-Csmax=%d' % smax, lines, '-Fc', '-Fmain', 'u.as']),
                         'gcc %s -I. *.c %s -o u.exe && ./u.exe' % (' '.join(tc.b.cflags()), ' '.join(tc.link))])
+    # two separately compiled modules, both split, emitted into one directory (the normal layout of a multi-file program)
+    HEAD = '#include "aldor"\n#include "aldorio"\n'
+    pairs = [('alpha', 'bravo'), ('modulea', 'moduleb'), ('abcde', 'abcdef'), ('m', 'mm')]
+
+    def twomod(j):
+        (la, cl), std, smax = j
+        if ck.expired():
+            return j, None
+        d = mkdir('%s/two-%s-%s-%s-%d' % (ck.work, la, cl, std, smax))
+        write('%s/%s.as' % (d, la), HEAD + 'VD1: with { f1: MachineInteger -> MachineInteger; g1: MachineInteger -> MachineInteger } == add { import from MachineInteger; '
+              'f1(n: MachineInteger): MachineInteger == n + 1; g1(n: MachineInteger): MachineInteger == n * 2 }\n')
+        write('%s/%s.as' % (d, cl), HEAD + '#library LA "%s.ao"\nimport from LA;\nimport from MachineInteger, VD1;\nh(n: MachineInteger): MachineInteger == f1 n + g1 n;\n'
+              'stdout << "K0:" << h 5 << newline;\n' % la)
+        r = tc.aldor(['-Q1', std, '-Csmax=%d' % smax, '-Fao', '-Fc', la + '.as'], d, timeout=200)
+        res = {'step': 'aldor-library', 'rc': r.rc, 'tail': r.text()[-300:]}
+        if r.rc == 0:
+            r = tc.aldor(['-Q1', std, '-Csmax=%d' % smax, '-Y.', '-Fc', '-Fmain', cl + '.as'], d, timeout=200)
+            res = {'step': 'aldor-client', 'rc': r.rc, 'tail': r.text()[-300:]}
+        if r.rc == 0:
+            cs = sorted(f for f in os.listdir(d) if f.endswith('.c'))
+            g = tc.cc(d, cs, 'u.exe', timeout=300, ccflags=['-I.'])
+            res = {'step': 'gcc', 'rc': g.rc, 'tail': g.text()[-500:]}
+            if g.rc == 0:
+                x = tc.runexe(d + '/u.exe', timeout=60)
+                res = {'step': 'run', 'rc': x.rc, 'tail': x.text()[-300:], 'got': [l for l in x.text().split('\n') if l.startswith('K0:')]}
+        shutil.rmtree(d, ignore_errors=True)
+        return j, res
+    tjobs = [(pr, std, smax) for pr in pairs for std in ('-Cstandard', '-Cold') for smax in (0, 1, 5, 50)]
+    for j, res in pmap(twomod, tjobs):
+        (la, cl), std, smax = j
+        if res is None:
+            ck.cut('two-module configuration not run')
+            continue
+        ck.count()
+        if res['step'] == 'run' and res['rc'] == 0 and res.get('got') == ['K0:16']:
+            ck.nontrivial(('two', la, cl, std, smax))
+            continue
+        if smax > 0 and la[:5] == cl[:5]:
+            key = 'cause=split-sibling-files-of-two-modules-collide,first-5-characters-shared'
+        else:
+            key = 'two-modules=%s+%s,step=%s,%s,smax=%d' % (la, cl, res['step'], std, smax)
+        ck.report(key, 'modules %s.as and %s.as compiled with %s -Csmax=%d into one directory: step %s rc=%s got %s want K0:16\n%s' % (la, cl, std, smax, res['step'], res['rc'], res.get('got'), res['tail']),
+                  files={'README-two.txt': 'library module %s.as, client module %s.as (texts are in checks/c16.py, twomod)\n' % (la, cl)})
     sweeps = []
     for ui in sweep_units:
         for std, m in sorted((k[1], v) for k, v in nfiles_by.items() if k[0] == ui):
